@@ -155,3 +155,57 @@ Proof.
   intros Hf. unfold drop_groups; cbn [ms_clients ms_groups]. rewrite gget_filter, Hf. split; [reflexivity|].
   rewrite (cget_map (filter (fun g0 => negb (f g0))) c _ eq_refl), filter_In, Hf. cbn [negb]. intros [_ F]. discriminate.
 Qed.
+
+(* ---------- no membership is recorded twice ---------- *)
+Definition Nd (m : mstate) : Prop :=
+  (forall c, NoDup (cget c (ms_clients m))) /\ (forall g ms, gget g (ms_groups m) = Some ms -> NoDup ms).
+
+Lemma NoDup_filter {A} (f : A -> bool) l : NoDup l -> NoDup (filter f l).
+Proof.
+  induction 1 as [|x l Hx Hn IH]; [constructor|]. cbn [filter]. destruct (f x); [|exact IH]. constructor; [|exact IH].
+  intros F. apply filter_In in F. tauto.
+Qed.
+Lemma NoDup_snoc {A} (x : A) l : NoDup l -> ~ In x l -> NoDup (l ++ [x]).
+Proof.
+  induction 1 as [|y l Hy Hn IH]; intros Hx; [constructor; [intros [] | constructor]|]. cbn [app]. constructor.
+  - intros F. apply in_app_or in F. destruct F as [F | [F|[]]]; [contradiction | subst; apply Hx; left; reflexivity].
+  - apply IH. intros F. apply Hx. right. exact F.
+Qed.
+
+Lemma Nd_drop f m : Nd m -> Nd (drop_groups f m).
+Proof.
+  intros [H1 H2]. split; unfold drop_groups; cbn [ms_clients ms_groups].
+  - intros c. rewrite (cget_map (filter (fun g0 => negb (f g0))) c _ eq_refl). apply NoDup_filter. apply H1.
+  - intros g ms. rewrite gget_filter. destruct (f g); [discriminate | apply H2].
+Qed.
+
+Lemma Nd_step m o : Nd m -> Nd (mstep m o).
+Proof.
+  intros [H1 H2]. destruct o as [g0|c0|c0 g0|c0 g0|g0|s t|s|c0]; cbn [mstep].
+  - destruct (gget g0 (ms_groups m)) as [ms0|] eqn:E0; [split; assumption|]. split; cbn [ms_clients ms_groups]; [exact H1|].
+    intros g ms. rewrite (gget_app_new g g0 _ E0). destruct (gkey_eqb g g0) eqn:E; [|apply H2].
+    apply gkey_eqb_eq in E. subst g. rewrite E0. intros [= <-]. constructor.
+  - split; cbn [ms_clients ms_groups]; [|exact H2]. intros c. destruct (N.eq_dec c c0) as [->|Hn]; [rewrite cget_cset_same | rewrite cget_cset_other by exact Hn]; apply H1.
+  - destruct (gget g0 (ms_groups m)) as [ms0|] eqn:E0; [|split; assumption]. split; cbn [ms_clients ms_groups].
+    + intros c. destruct (N.eq_dec c c0) as [->|Hn]; [rewrite cget_cset_same | rewrite cget_cset_other by exact Hn; apply H1].
+      destruct (gmem g0 (cget c0 (ms_clients m))) eqn:Eg; [apply H1|]. apply NoDup_snoc; [apply H1|]. intros F. apply gmem_in in F. congruence.
+    + intros g ms. destruct (gkey_dec g g0) as [->|Hg]; [rewrite (gget_gset_same g0 _ _ ms0 E0) | rewrite (gget_gset_other g g0 _ _ Hg); apply H2].
+      intros [= <-]. destruct (cmem c0 ms0) eqn:Em; [apply (H2 g0 ms0 E0)|]. apply NoDup_snoc; [apply (H2 g0 ms0 E0)|]. intros F. apply cmem_in in F. congruence.
+  - destruct (gget g0 (ms_groups m)) as [ms0|] eqn:E0; [|split; assumption]. split; cbn [ms_clients ms_groups].
+    + intros c. destruct (N.eq_dec c c0) as [->|Hn]; [rewrite cget_cset_same; apply NoDup_filter; apply H1 | rewrite cget_cset_other by exact Hn; apply H1].
+    + intros g ms. destruct (gkey_dec g g0) as [->|Hg]; [rewrite (gget_gset_same g0 _ _ ms0 E0) | rewrite (gget_gset_other g g0 _ _ Hg); apply H2].
+      intros [= <-]. apply NoDup_filter. apply (H2 g0 ms0 E0).
+  - apply Nd_drop. split; assumption.
+  - apply Nd_drop. split; assumption.
+  - apply Nd_drop. split; assumption.
+  - split; cbn [ms_clients ms_groups].
+    + intros c. destruct (N.eq_dec c c0) as [->|Hn]; [rewrite cget_cset_same; constructor | rewrite cget_cset_other by exact Hn; apply H1].
+    + intros g ms. rewrite gget_map. destruct (gget g (ms_groups m)) as [ms1|] eqn:E1; [|discriminate]. intros [= <-]. apply NoDup_filter. apply (H2 g ms1 E1).
+Qed.
+
+Theorem nodup_always : forall ops, Nd (mrun ops).
+Proof.
+  intros ops. unfold mrun. assert (G : forall m, Nd m -> Nd (fold_left mstep ops m)).
+  { induction ops as [|o r IH]; intros m H; [exact H|]. cbn [fold_left]. apply IH. apply Nd_step. exact H. }
+  apply G. split; [intros c; constructor | intros g ms F; discriminate].
+Qed.
